@@ -54,20 +54,18 @@ func checkC16(p *Program, r *Report) {
 		return
 	}
 	r.Func(shortFn(gb))
-	// generic terms
-	ge := newEval(p)
-	var gCond string
-	var gOff *term
-	var gHi *term
-	for _, b := range gb.Blocks {
-		if iff, ok := lastInstr(b).(*ssa.If); ok && gCond == "" {
-			gCond = ge.eval(iff.Cond).String()
+	inArray := func(g *ssa.Function) bool { return pkgPathOf(g) == arrayPath }
+	gps, gwhy := flatten(p, gb, nil, inArray)
+	var gAbsent, gPresent *fpath
+	for i := range gps {
+		if gps[i].panics || len(gps[i].results) != 2 {
+			continue
 		}
-	}
-	for _, ret := range returnsOf(gb) {
-		if sl, ok := ret.Results[0].(*ssa.Slice); ok && sl.Low != nil && sl.High != nil {
-			gOff = ge.eval(sl.Low)
-			gHi = ge.eval(sl.High)
+		switch gps[i].results[1].String() {
+		case "false":
+			gAbsent = &gps[i]
+		case "true":
+			gPresent = &gps[i]
 		}
 	}
 	var eltParam string
@@ -76,13 +74,18 @@ func checkC16(p *Program, r *Report) {
 			eltParam = prm.Name()
 		}
 	}
-	if gCond == "" || gOff == nil || eltParam == "" {
-		r.Unk("(*array.Base).GetBytes", p.Pos(gb.Pos()), "cannot extract the presence test / offset term of the generic accessor")
+	if gwhy != "" || len(gps) != 2 || gAbsent == nil || gPresent == nil || eltParam == "" || gPresent.results[0].op != "slice" {
+		r.Unk("(*array.Base).GetBytes", p.Pos(gb.Pos()), "cannot summarise the generic accessor as (absent -> nil,false | present -> Elts[off:off+eltsize],true): "+gwhy+" "+pathsString(gps))
 		return
 	}
-	// the generic slice has exactly eltsize bytes
-	wantHi := O("add", gOff, ON("conv", "int32", S(eltParam)))
-	r.Check(gHi.String() == wantHi.String(), "(*array.Base).GetBytes length", p.Pos(gb.Pos()), "returns Elts[off : off+eltsize]", "slice bounds "+gOff.String()+" .. "+gHi.String()+" are not off .. off+eltsize")
+	gOff, gHi := gPresent.results[0].args[1], gPresent.results[0].args[2]
+	eltT := S(eltParam)
+	if platformIntBytes > 4 {
+		eltT = ON("conv", "int32", S(eltParam)) // int -> int32 narrows on 64-bit platforms only
+	}
+	wantHi := O("add", gOff, eltT)
+	okGen := gHi.String() == wantHi.String() && gPresent.results[0].args[0].String() == "Array32.Elts" && gAbsent.results[0].String() == "nil"
+	r.Check(okGen, "(*array.Base).GetBytes summary", p.Pos(gb.Pos()), "absent -> (nil,false); present -> (Elts[off : off+eltsize], true)", "generic accessor is "+pathsString(gps))
 
 	for _, n := range typedArrays(p) {
 		name := n.Obj().Name()
@@ -97,68 +100,50 @@ func checkC16(p *Program, r *Report) {
 		r.Func(shortFn(get))
 		elt := sig.Results().At(0).Type()
 		w := p.Sizes.Sizeof(elt)
-		e := newEval(p)
 		construct := "(*array." + name + ").Get agrees with Base.GetBytes"
-		var cond string
-		var iffB *ssa.BasicBlock
-		for _, b := range get.Blocks {
-			if iff, ok := lastInstr(b).(*ssa.If); ok && cond == "" {
-				cond = e.eval(iff.Cond).String()
-				iffB = b
-			}
-		}
+		tps, twhy := flatten(p, get, nil, inArray)
 		var why []string
-		if cond != gCond {
-			why = append(why, "presence test "+cond+" differs from the generic "+gCond)
+		if twhy != "" {
+			r.Unk(construct, p.Pos(get.Pos()), "cannot summarise: "+twhy)
+			continue
 		}
 		wantOff := substitute(gOff, eltParam, K(w))
-		nAbsent, nPresent := 0, 0
-		for _, ret := range returnsOf(get) {
-			okT := e.eval(ret.Results[1]).String()
-			switch okT {
-			case "false":
-				nAbsent++
-				if e.eval(ret.Results[0]).String() != "0" {
-					why = append(why, "absent path does not return the zero value")
+		var parts []*term
+		for j := int64(0); j < w; j++ {
+			parts = append(parts, mulTerms(K(int64(1)<<uint(8*j)), ON("idx", "", S("Array32.Elts"), O("add", wantOff, K(j)))))
+		}
+		wantVal := O("or", parts...)
+		if w == 1 {
+			wantVal = parts[0]
+		}
+		nAbs, nPres := 0, 0
+		for _, tp := range tps {
+			if tp.panics || len(tp.results) != 2 {
+				why = append(why, "a path panics or does not return (value, bool)")
+				continue
+			}
+			switch {
+			case tp.pcKey() == gAbsent.pcKey():
+				nAbs++
+				if tp.results[0].String() != "0" || tp.results[1].String() != "false" {
+					why = append(why, "absent path returns ("+tp.resKey()+"), want (0,false)")
 				}
-				if iffB == nil || ret.Block() != iffB.Succs[0] {
-					why = append(why, "the (0,false) return is not the branch of the presence test")
+			case tp.pcKey() == gPresent.pcKey():
+				nPres++
+				if tp.results[1].String() != "true" {
+					why = append(why, "present path does not report found")
 				}
-			case "true":
-				nPresent++
-				root, okc, y := convChain(ret.Results[0])
-				if !okc {
-					why = append(why, y)
-				}
-				call, ok := root.(*ssa.Call)
-				if !ok || !isLittleEndianCall(call, fmt.Sprintf("Uint%d", 8*w)) {
-					got := "?"
-					if ok {
-						got = funcID(calleeOf(call))
-					}
-					why = append(why, fmt.Sprintf("element decoded with %s, want (binary.littleEndian).Uint%d", got, 8*w))
-					continue
-				}
-				sl, ok := call.Call.Args[1].(*ssa.Slice)
-				if !ok || sl.Low == nil {
-					why = append(why, "the element bytes are not a reslice of Elts at the offset")
-					continue
-				}
-				if wirePathOf(sl.X) != "Array32.Elts" {
-					why = append(why, "the element bytes are not taken from Elts")
-				}
-				off := e.eval(sl.Low)
-				if off.String() != wantOff.String() {
-					why = append(why, "offset "+abbreviate(off.String())+" differs from the generic offset with eltsize="+fmt.Sprint(w)+": "+abbreviate(wantOff.String()))
+				if tp.results[0].String() != wantVal.String() {
+					why = append(why, fmt.Sprintf("present value %s is not the %d-byte little-endian assembly of Elts at the generic offset with eltsize=%d: %s", abbreviate(tp.results[0].String()), w, w, abbreviate(wantVal.String())))
 				}
 			default:
-				why = append(why, "found flag "+okT+" is not a constant")
+				why = append(why, "path condition ["+abbreviate(tp.pcKey())+"] is neither the generic presence test nor its negation")
 			}
 		}
-		if nAbsent != 1 || nPresent != 1 {
-			why = append(why, fmt.Sprintf("%d absent and %d present returns", nAbsent, nPresent))
+		if nAbs != 1 || nPres != 1 {
+			why = append(why, fmt.Sprintf("%d absent and %d present paths", nAbs, nPres))
 		}
-		r.Check(len(why) == 0, construct, p.Pos(get.Pos()), fmt.Sprintf("same presence test, offset = %d*(Offsets[idx>>6]+popcnt(Bitmaps[idx>>6]&mask(idx&63))), LittleEndian.Uint%d", w, 8*w), strings.Join(why, "; "))
+		r.Check(len(why) == 0, construct, p.Pos(get.Pos()), fmt.Sprintf("same presence test; present value = little-endian %d bytes of Elts at %d*(Offsets[idx>>6]+popcnt(Bitmaps[idx>>6]&mask(idx&63)))", w, w), strings.Join(dedupStrings(sortStr(why)), "; "))
 	}
 
 	// ---- reject
